@@ -486,8 +486,14 @@ func MembershipProof.Verify
 // value present in the abstraction has the length of a digest of H. The loop itself is not
 // verified (the abstraction of map contents as byte strings is not connected to the map).
 func AuditPath.wellFormed
-  props C12
+  props C03 C12
   requires !isnil(hasher)
+  // proved: a true answer means EVERY value of the map has the digest length of the hasher
+  // (visited(q): the range loop has already delivered key q; at its end all keys were)
+  ensures C03/every-value-has-digest-length: result ==> forall q [10]byte :: has(p, q) ==> len(p[q]) == int(hashlen(hasher) / 8)
+  loop 1 modifies nothing
+  loop 1 invariant size == int(hashlen(hasher) / 8)
+  loop 1 invariant forall q [10]byte :: visited(q) ==> len(p[q]) == size
   assumes result ==> PathOK(box(p))
 
 // C03, soundness of consistency proofs (the history tree's): a proof that verifies against the
